@@ -1,24 +1,33 @@
 //! C14 — IOTA state-metadata packing round-trips and rewrites only self-references.
 //!
-//! (a) E1 choice DFS over document shapes (self DID / network, two methods with id-DID x controller x scope,
-//!     a relationship reference, two services, controllers, alsoKnownAs + custom properties, metadata) x rebase
-//!     target: `pack` -> `StateMetadataDocument::unpack` -> `into_iota_document(target)` is compared with a rewrite of
-//!     the document's JSON tree done by the harness (self DID replaced in exactly: id, controllers, method ids and
-//!     controllers, relationship references, service ids).
-//! (b) framing: every value of every header byte, every (version, encoding) pair, every 16-bit length prefix,
-//!     every truncation, trailing bytes.
+//! (a) E1 choice DFS over document shapes (self DID / network, three methods with id-DID x controller x scope (all
+//!     five relationships) x key flavour, references in every relationship, three services, controllers (string and
+//!     array form), alsoKnownAs + custom properties, metadata fields one by one) x rebase target: `pack` ->
+//!     `StateMetadataDocument::unpack` -> `into_iota_document(target)` is compared with a rewrite of the document's
+//!     JSON tree done by the harness (self DID replaced in exactly: id, controllers, method ids and controllers,
+//!     relationship references, service ids) and with the real document built from that tree; a successful rebase is
+//!     packed again and unpacked for the original DID (second hop, same oracle). The "compact" alphabets (the first
+//!     entries of every table) are explored as a whole product in the thorough tier, the "wide" ones deviation-bounded.
+//! (b) framing over two base documents (payload length with and without a high byte): every value of every header
+//!     byte, every (version, encoding) pair, every 16-bit length prefix, every truncation, trailing bytes; every
+//!     `StateMetadataEncoding` variant the library knows.
 //! (c) size boundary: payloads of 65 530 ..= 65 540 bytes pack iff they fit the 16-bit length.
+//!
+//! Not reached: `IotaDocument::unpack_from_output` / `unpack_from_block` exist only with the `client` feature of
+//! identity_iota_core (iota-sdk), which the harness does not enable; they are thin wrappers around
+//! `StateMetadataDocument::unpack(..).and_then(|d| d.into_iota_document(did))`, which is what is driven here.
 
 use identity_core::convert::{FromJson, ToJson};
+use identity_did::DID;
 use identity_iota_core::{IotaDID, IotaDocument, StateMetadataDocument, StateMetadataEncoding};
 use serde::{Deserialize, Serialize};
 use serde_json::Value;
+use std::collections::BTreeMap;
 use std::collections::BTreeSet;
+use std::sync::atomic::{AtomicBool, Ordering};
+use std::sync::Mutex;
 use vx::choice::{self, Chooser};
 use vx::rayon::prelude::*;
-use identity_did::DID;
-use std::collections::BTreeMap;
-use std::sync::Mutex;
 use vx::{guard, json, Ctx, Level};
 
 // Per-worker accumulators for part (a) (millions of leaves): outcome labels and distinct-case hashes are merged
@@ -48,12 +57,18 @@ fn flush_shards(ctx: &Ctx) {
     ctx.distinct_many(std::mem::take(&mut s.distinct));
   }
 }
+/// The compact whole-product run restricts every choice point to its first entries (set by `generate` only; a
+/// replayed case always reads the wide tables, of which the compact ones are prefixes).
+static COMPACT: AtomicBool = AtomicBool::new(false);
 
 const TAG_SELF: &str = "0x8036235b6b5939435a45d68bcea7890eef399209a669c8c263fac7f5089b2ec6";
 const TAG_ZERO: &str = "0x0000000000000000000000000000000000000000000000000000000000000000";
 const F1: &str = "did:iota:0x71b709dff439f1ac9dd2b9c2e28db0807156b378e13bfa3605ce665aa0d0fdca";
 const T: &str = "did:iota:0x1111111111111111111111111111111111111111111111111111111111111111";
 const X: &str = "did:example:123";
+/// The reserved placeholder and a DID that merely looks like it (a foreign DID as any other).
+const PLACEHOLDER: &str = "did:0:0";
+const Q: &str = "did:0:00";
 const RELS: [&str; 5] = ["authentication", "assertionMethod", "keyAgreement", "capabilityDelegation", "capabilityInvocation"];
 
 #[derive(Serialize, Deserialize, Debug, Clone, PartialEq)]
@@ -61,15 +76,37 @@ enum Case {
   /// (a) choice sequence of `doc_body`
   Doc(Vec<u32>),
   /// (b) byte `pos` (0..7) of the packed base document set to `val`
-  Header { pos: u8, val: u8 },
+  Header {
+    pos: u8,
+    val: u8,
+    #[serde(default)]
+    base: u8,
+  },
   /// (b) bytes `pos`, `pos+1` set to `a`, `b` (pos 3 = version+encoding, pos 5 = length prefix)
-  Header2 { pos: u8, a: u8, b: u8 },
+  Header2 {
+    pos: u8,
+    a: u8,
+    b: u8,
+    #[serde(default)]
+    base: u8,
+  },
   /// (b) only the first `len` bytes of the packed base document
-  Truncate { len: u32 },
+  Truncate {
+    len: u32,
+    #[serde(default)]
+    base: u8,
+  },
   /// (b) `k` bytes `junk` appended
-  Trailing { k: u32, junk: u8 },
+  Trailing {
+    k: u32,
+    junk: u8,
+    #[serde(default)]
+    base: u8,
+  },
   /// (b) well-formed frame around an odd body (recorded, not judged)
   Body { id: u8 },
+  /// (b) `pack_with_encoding` for every encoding variant the library knows, on base document `base`
+  Encodings { base: u8 },
   /// (c) document padded so that the JSON payload has exactly `payload` bytes
   Size { payload: u32 },
 }
@@ -82,138 +119,295 @@ fn self_did(net: usize) -> String {
     _ => format!("did:iota:{TAG_ZERO}"), // what `IotaDocument::new` gives before publication
   }
 }
-fn method(id_did: &str, frag: &str, controller: &str) -> Value {
-  json!({"id": format!("{id_did}#{frag}"), "controller": controller, "type": "Ed25519VerificationKey2018", "publicKeyMultibase": "zJdzr2UvC"})
+/// `N`: the self tag on another network — a foreign DID.
+fn sibling_did(net: usize) -> String {
+  match net {
+    0 => format!("did:iota:rms:{TAG_SELF}"),
+    1 => format!("did:iota:{TAG_SELF}"),
+    _ => format!("did:iota:rms:{TAG_ZERO}"),
+  }
+}
+/// flavour 0: multibase key; 1: JWK key; 2: multibase key + custom method properties that mention DIDs.
+fn method(id_did: &str, frag: &str, controller: &str, flavour: u8, s: &str) -> Value {
+  let mut m = match flavour {
+    1 => json!({"id": format!("{id_did}#{frag}"), "controller": controller, "type": "JsonWebKey",
+                "publicKeyJwk": {"kty": "OKP", "crv": "Ed25519", "x": "11qYAYKxCrfVS_7TyWQHOg7hcvPapiMlrwIaaPcHURo"}}),
+    _ => json!({"id": format!("{id_did}#{frag}"), "controller": controller, "type": "Ed25519VerificationKey2018", "publicKeyMultibase": "zJdzr2UvC"}),
+  };
+  if flavour == 2 {
+    m["owner"] = json!(s);
+    m["note"] = json!(format!("{s}#{frag} is controlled by {s}"));
+    m["placeholderLike"] = json!([PLACEHOLDER, format!("{PLACEHOLDER}#{frag}"), Q]);
+    m["nested"] = json!({"id": format!("{s}#{frag}"), "controller": s});
+  }
+  m
 }
 
 struct Built {
   s: String,
   target: String,
   tree: Value,
+  /// the reserved placeholder occurs in an identifier position: outside the property, executed but not judged
+  placeholder: bool,
 }
 
-/// Method shapes: (id DID, controller, scope) with scope 0 general, 1 authentication-embedded, 2 keyAgreement-embedded.
-/// `S` stands for the self DID.
-const M1: [(&str, &str, u8); 11] = [
-  ("S", "S", 0),
-  ("S", "S", 1),
-  ("S", "S", 2),
-  (F1, F1, 0),
-  (F1, "S", 0),
-  ("S", F1, 0),
-  ("S", X, 1),
-  (T, T, 0),
-  (T, T, 1),
-  (T, "S", 2),
-  ("", "", 0), // absent
+/// Method shapes: (id DID, controller, scope, fragment, flavour) with scope 0 general, 1 authentication-, 2 keyAgreement-,
+/// 3 assertionMethod-, 4 capabilityDelegation-, 5 capabilityInvocation-embedded. `S` = self DID, `F` = another IOTA DID,
+/// `T` = the constant rebase target, `N` = self tag on another network, `L` = self DID with two more characters (not an
+/// IOTA DID, a valid DID), `Q` = looks like the placeholder, `X` = did:example, `P` = the placeholder itself (not judged).
+type M = (&'static str, &'static str, u8, &'static str, u8);
+const M1_COMPACT: usize = 11;
+const M1: [M; 25] = [
+  ("S", "S", 0, "k1", 0),
+  ("S", "S", 1, "k1", 0),
+  ("S", "S", 2, "k1", 0),
+  ("F", "F", 0, "k1", 0),
+  ("F", "S", 0, "k1", 0),
+  ("S", "F", 0, "k1", 0),
+  ("S", "X", 1, "k1", 0),
+  ("T", "T", 0, "k1", 0),
+  ("T", "T", 1, "k1", 0),
+  ("T", "S", 2, "k1", 0),
+  ("", "", 0, "", 0), // absent
+  // wide
+  ("S", "S", 3, "k1", 0),
+  ("S", "S", 4, "k1", 0),
+  ("S", "S", 5, "k1", 0),
+  ("F", "S", 5, "k1", 0),
+  ("N", "N", 0, "k1", 0),
+  ("S", "N", 0, "k1", 0),
+  ("N", "S", 4, "k1", 0),
+  ("L", "L", 0, "k1", 0),
+  ("L", "S", 1, "k1", 0),
+  ("S", "L", 3, "k1", 0),
+  ("Q", "Q", 0, "k1", 0),
+  ("X", "S", 0, "k1", 0),
+  ("S", "S", 0, "k1", 1),
+  ("S", "S", 0, "k1", 2),
 ];
-/// second method: additionally a fragment (k1 collides with method 1 once the DIDs coincide)
-const M2: [(&str, &str, u8, &str); 8] = [
-  ("", "", 0, ""), // absent
-  ("S", "S", 0, "k2"),
-  ("S", "S", 0, "k1"),
-  (T, T, 0, "k1"),
-  (T, T, 1, "k1"),
-  (F1, F1, 0, "k1"),
-  ("S", "S", 1, "k1"),
-  (F1, "S", 2, "k2"),
+/// second method (k1 collides with method 1 once the DIDs coincide)
+const M2_COMPACT: usize = 8;
+const M2: [M; 15] = [
+  ("", "", 0, "", 0), // absent
+  ("S", "S", 0, "k2", 0),
+  ("S", "S", 0, "k1", 0),
+  ("T", "T", 0, "k1", 0),
+  ("T", "T", 1, "k1", 0),
+  ("F", "F", 0, "k1", 0),
+  ("S", "S", 1, "k1", 0),
+  ("F", "S", 2, "k2", 0),
+  // wide
+  ("N", "N", 0, "k1", 0),
+  ("L", "L", 0, "k1", 0),
+  ("T", "T", 5, "k1", 0),
+  ("S", "S", 5, "k1", 0),
+  ("S", "S", 4, "k2", 1),
+  ("T", "S", 3, "k1", 2),
+  ("S", "Q", 0, "k2", 0),
 ];
-const REFS: [&str; 5] = ["", "S#k1", "F#k1", "T#k1", "S#zz"];
-const S1: [&str; 5] = ["S#s1", "", "F#s1", "T#s1", "X#s1"];
-const S2: [&str; 5] = ["", "S#s2", "S#s1", "T#s2", "S#k1"];
-const CTRL: [&[&str]; 6] = [&[], &["S"], &["F"], &["S", "F"], &["S", "T"], &["T", "S"]];
+/// third method (wide only)
+const M3: [M; 11] = [
+  ("", "", 0, "", 0), // absent
+  ("S", "S", 0, "k3", 0),
+  ("S", "S", 3, "k3", 0),
+  ("S", "S", 4, "k3", 2),
+  ("S", "S", 5, "k3", 1),
+  ("F", "S", 5, "k3", 0),
+  ("T", "T", 0, "k3", 0),
+  ("T", "T", 0, "k2", 0),
+  ("S", "S", 0, "k1", 0),
+  ("T", "T", 4, "k1", 0),
+  ("P", "S", 0, "k3", 0), // placeholder in an identifier position: executed, not judged
+];
+/// reference in assertionMethod
+const REFS_COMPACT: usize = 5;
+const REFS: [&str; 10] = ["", "S#k1", "F#k1", "T#k1", "S#zz", "N#k1", "L#k1", "S?v=1#k1", "S#k2", "S#k3"];
+/// further references: (relationship index into RELS, url)
+const REFS2: [&[(usize, &str)]; 8] = [
+  &[],
+  &[(4, "S#k1")],
+  &[(3, "S#k1"), (2, "S#k1")],
+  &[(0, "S#k1"), (0, "T#k1")],
+  &[(4, "F#k1"), (4, "S#k2")],
+  &[(0, "S#k2"), (3, "N#k1")],
+  &[(2, "T#k1"), (3, "S#k3"), (4, "S#k3")],
+  &[(0, "S#k1"), (1, "T#k1"), (2, "S#k2"), (3, "S#k1"), (4, "S#k2")],
+];
+const S1_COMPACT: usize = 5;
+const S1: [&str; 9] = ["S#s1", "", "F#s1", "T#s1", "X#s1", "N#s1", "L#s1", "S?x=1#s1", "S/p#s1"];
+const S2_COMPACT: usize = 5;
+const S2: [&str; 8] = ["", "S#s2", "S#s1", "T#s2", "S#k1", "N#s2", "T#k1", "T#s1"];
+/// third service (wide only): (id, endpoint/type flavour)
+const S3: [(&str, u8); 8] = [("", 0), ("S#s3", 0), ("T#s1", 0), ("F#s3", 0), ("S#s3", 1), ("S#s3", 2), ("T#s2", 2), ("P#s3", 0)];
+/// controllers: (list, true = serialised as one string)
+const CTRL_COMPACT: usize = 6;
+const CTRL: [(&[&str], bool); 14] = [
+  (&[], false),
+  (&["S"], false),
+  (&["F"], false),
+  (&["S", "F"], false),
+  (&["S", "T"], false),
+  (&["T", "S"], false),
+  // wide
+  (&["S"], true),
+  (&["F"], true),
+  (&["N"], false),
+  (&["S", "N"], false),
+  (&["F", "S", "T"], false),
+  (&["T"], true),
+  (&["T", "F", "S", "N"], false),
+  (&["F", "T"], false),
+];
+const EXTRA_COMPACT: usize = 3;
+const EXTRA_N: usize = 5;
+const META_COMPACT: usize = 5;
+const META_N: usize = 13;
+const TARGET_COMPACT: usize = 3;
+const TARGET_N: usize = 5;
 
 fn build(ch: &mut Chooser) -> Built {
+  let compact = COMPACT.load(Ordering::Relaxed);
+  let lim = |wide: usize, small: usize| if compact { small } else { wide };
   let net = ch.choose("self-network", 3);
   let s = self_did(net);
-  let d = |x: &str| -> String {
-    match x {
+  let sibling = sibling_did(net);
+  let mut placeholder = false;
+  // "S?x=1#s1" / "S": DID symbol followed by the rest of the DID URL
+  let mut url = |x: &str| -> String {
+    let cut = x.find(|c| c == '#' || c == '?' || c == '/').unwrap_or(x.len());
+    let did = match &x[..cut] {
       "S" => s.clone(),
       "F" => F1.to_string(),
       "T" => T.to_string(),
       "X" => X.to_string(),
-      other => other.to_string(),
-    }
-  };
-  let url = |x: &str| -> String {
-    let (did, frag) = x.split_once('#').unwrap();
-    format!("{}#{frag}", d(did))
+      "N" => sibling.clone(),
+      "L" => format!("{s}00"),
+      "Q" => Q.to_string(),
+      "P" => {
+        placeholder = true;
+        PLACEHOLDER.to_string()
+      }
+      other => unreachable!("DID symbol {other}"),
+    };
+    format!("{did}{}", &x[cut..])
   };
   let mut general = Vec::new();
-  let mut auth = Vec::new();
-  let mut ka = Vec::new();
-  let mut push = |m: Value, scope: u8| match scope {
-    0 => general.push(m),
-    1 => auth.push(m),
-    _ => ka.push(m),
-  };
-  let m1 = M1[ch.choose("method-1", M1.len())];
-  if !m1.0.is_empty() {
-    // (no method-level custom properties: `VerificationMethod` deserialisation is order-sensitive once a method has
-    // any extra property, which is outside this property — see the report)
-    push(method(&d(m1.0), "k1", &d(m1.1)), m1.2);
+  let mut rel: [Vec<Value>; 5] = Default::default();
+  let methods = [
+    M1[ch.choose("method-1", lim(M1.len(), M1_COMPACT))],
+    M2[ch.choose("method-2", lim(M2.len(), M2_COMPACT))],
+    M3[ch.choose("method-3", lim(M3.len(), 1))],
+  ];
+  for (id, ctrl, scope, frag, flavour) in methods {
+    if id.is_empty() {
+      continue;
+    }
+    let m = method(&url(id), frag, &url(ctrl), flavour, &s);
+    match scope {
+      0 => general.push(m),
+      1 => rel[0].push(m),
+      2 => rel[2].push(m),
+      3 => rel[1].push(m),
+      4 => rel[3].push(m),
+      _ => rel[4].push(m),
+    }
   }
-  let m2 = M2[ch.choose("method-2", M2.len())];
-  if !m2.0.is_empty() {
-    push(method(&d(m2.0), m2.3, &d(m2.1)), m2.2);
+  let r = REFS[ch.choose("reference", lim(REFS.len(), REFS_COMPACT))];
+  if !r.is_empty() {
+    rel[1].push(json!(url(r)));
   }
-  let r = REFS[ch.choose("reference", REFS.len())];
+  for (i, r) in REFS2[ch.choose("references-2", lim(REFS2.len(), 1))] {
+    rel[*i].push(json!(url(r)));
+  }
   let mut services = Vec::new();
-  let s1 = S1[ch.choose("service-1", S1.len())];
+  let s1 = S1[ch.choose("service-1", lim(S1.len(), S1_COMPACT))];
   if !s1.is_empty() {
     // endpoint mentions the self DID
     services.push(json!({"id": url(s1), "type": "LinkedResource", "serviceEndpoint": format!("{s}?service=files&relativeRef=%2Fa")}));
   }
-  let s2 = S2[ch.choose("service-2", S2.len())];
+  let s2 = S2[ch.choose("service-2", lim(S2.len(), S2_COMPACT))];
   if !s2.is_empty() {
     services.push(json!({"id": url(s2), "type": "LinkedDomains", "serviceEndpoint": "https://example.com/", "ownedBy": s.clone()}));
   }
-  let ctrl = CTRL[ch.choose("controller", CTRL.len())];
-  let extra = ch.choose("aka+properties", 3);
-  let meta_kind = ch.choose("metadata", 5);
-  let target = match ch.choose("target", 3) {
+  let (s3, s3_flavour) = S3[ch.choose("service-3", lim(S3.len(), 1))];
+  if !s3.is_empty() {
+    services.push(match s3_flavour {
+      0 => json!({"id": url(s3), "type": "LinkedResource", "serviceEndpoint": format!("{s}#k1")}),
+      1 => json!({"id": url(s3), "type": ["A", "B"], "serviceEndpoint": [format!("{s}/a"), format!("{PLACEHOLDER}#k1"), "https://example.com/b"]}),
+      _ => json!({"id": url(s3), "type": "C", "serviceEndpoint": {"origins": [s.clone(), F1], "placeholder": [PLACEHOLDER]},
+                  "id2": url("S#s3"), "controller": s.clone()}),
+    });
+  }
+  let (ctrl, ctrl_single) = CTRL[ch.choose("controller", lim(CTRL.len(), CTRL_COMPACT))];
+  let extra = ch.choose("aka+properties", lim(EXTRA_N, EXTRA_COMPACT));
+  let meta_kind = ch.choose("metadata", lim(META_N, META_COMPACT));
+  let target = match ch.choose("target", lim(TARGET_N, TARGET_COMPACT)) {
     0 => T.to_string(),
     1 => s.clone(),
-    _ => format!("did:iota:rms:{}", if net == 2 { TAG_ZERO } else { TAG_SELF }),
+    2 => format!("did:iota:rms:{}", if net == 2 { TAG_ZERO } else { TAG_SELF }),
+    3 => F1.to_string(),
+    _ => sibling.clone(),
   };
 
   let mut doc = json!({"id": s});
   if !ctrl.is_empty() {
-    doc["controller"] = Value::Array(ctrl.iter().map(|c| json!(d(c))).collect());
+    doc["controller"] = if ctrl_single { json!(url(ctrl[0])) } else { Value::Array(ctrl.iter().map(|c| json!(url(c))).collect()) };
   }
   if !general.is_empty() {
     doc["verificationMethod"] = Value::Array(general);
   }
-  if !auth.is_empty() {
-    doc["authentication"] = Value::Array(auth);
-  }
-  if !ka.is_empty() {
-    doc["keyAgreement"] = Value::Array(ka);
-  }
-  if !r.is_empty() {
-    doc["assertionMethod"] = json!([url(r)]);
+  for (i, list) in rel.into_iter().enumerate() {
+    if !list.is_empty() {
+      doc[RELS[i]] = Value::Array(list);
+    }
   }
   if !services.is_empty() {
     doc["service"] = Value::Array(services);
   }
-  if extra >= 1 {
+  if extra == 1 || extra == 2 {
     doc["alsoKnownAs"] = json!(["https://example.com/me", s.clone(), F1]);
   }
-  if extra >= 2 {
+  if extra == 2 {
     doc["customText"] = json!(format!("{s}#k1 is my key"));
     doc["customTree"] = json!({"did": s.clone(), "list": [s.clone(), F1, T], "n": 7});
   }
+  if extra == 3 {
+    // strings that are, or look like, the placeholder in positions that are not identifiers
+    doc["alsoKnownAs"] = json!([PLACEHOLDER, format!("{PLACEHOLDER}#k1"), Q, s.clone()]);
+    doc["customText"] = json!(format!("{PLACEHOLDER}#k1 and {PLACEHOLDER} are not mine"));
+    doc["customTree"] = json!({"did": PLACEHOLDER, "list": [PLACEHOLDER, Q, format!("x{PLACEHOLDER}"), format!("{PLACEHOLDER}/p?q#f")], PLACEHOLDER: s.clone()});
+  }
+  if extra == 4 {
+    // a document-shaped tree inside the custom properties
+    doc["previousVersion"] = json!({
+      "id": s.clone(), "controller": [s.clone()],
+      "verificationMethod": [{"id": format!("{s}#k1"), "controller": s.clone(), "type": "Ed25519VerificationKey2018", "publicKeyMultibase": "zJdzr2UvC"}],
+      "authentication": [format!("{s}#k1")],
+      "service": [{"id": format!("{s}#s1"), "type": "LinkedDomains", "serviceEndpoint": "https://example.com/"}],
+      "doc": {"id": s.clone()}, "meta": {"governorAddress": "x"}
+    });
+  }
+  const CREATED: &str = "2023-01-01T00:00:00Z";
+  const UPDATED: &str = "2023-06-01T12:00:00Z";
+  const GOV: &str = "rms1pqrgtxx37pkmr3nnt2xkyy9kxqlqdxwqnjmgxgmzqe5uwy0wh5cnwmvkfrz";
+  const SCA: &str = "rms1pzjpd0xv7nc2ja8a6awsnvwwhqvzn6e6mxlmwpw2xhrhq4mk6ry8ql4n3tp";
   let meta = match meta_kind {
-    0 => json!({"created": "2023-01-01T00:00:00Z", "updated": "2023-06-01T12:00:00Z"}),
+    0 => json!({"created": CREATED, "updated": UPDATED}),
     1 => json!({}),
-    2 => json!({"created": "2023-01-01T00:00:00Z", "updated": "2023-06-01T12:00:00Z", "deactivated": true}),
-    3 => json!({"created": "2023-01-01T00:00:00Z", "updated": "2023-06-01T12:00:00Z",
-                "governorAddress": "rms1pqrgtxx37pkmr3nnt2xkyy9kxqlqdxwqnjmgxgmzqe5uwy0wh5cnwmvkfrz",
-                "stateControllerAddress": "rms1pzjpd0xv7nc2ja8a6awsnvwwhqvzn6e6mxlmwpw2xhrhq4mk6ry8ql4n3tp"}),
-    _ => json!({"updated": "2023-06-01T12:00:00Z", "deactivated": false, "governorAddress": "rms1pqrgtxx37pkmr3nnt2xkyy9kxqlqdxwqnjmgxgmzqe5uwy0wh5cnwmvkfrz",
-                "customMeta": {"owner": s.clone()}, "n": 3}),
+    2 => json!({"created": CREATED, "updated": UPDATED, "deactivated": true}),
+    3 => json!({"created": CREATED, "updated": UPDATED, "governorAddress": GOV, "stateControllerAddress": SCA}),
+    4 => json!({"updated": UPDATED, "deactivated": false, "governorAddress": GOV, "customMeta": {"owner": s.clone()}, "n": 3}),
+    // wide: every field on its own
+    5 => json!({"created": CREATED}),
+    6 => json!({"updated": UPDATED}),
+    7 => json!({"deactivated": true}),
+    8 => json!({"deactivated": false}),
+    9 => json!({"governorAddress": GOV}),
+    10 => json!({"stateControllerAddress": SCA}),
+    11 => json!({"customMeta": {"owner": s.clone(), "governorAddress": GOV, "stateControllerAddress": SCA, "placeholder": PLACEHOLDER}, "note": PLACEHOLDER}),
+    _ => json!({"created": UPDATED, "updated": CREATED, "stateControllerAddress": GOV, "governorAddress": ""}),
   };
-  Built { s, target, tree: json!({"doc": doc, "meta": meta}) }
+  Built { s, target, tree: json!({"doc": doc, "meta": meta}), placeholder }
 }
 
 // ------------------------------------------------------------------ the reference rewrite (JSON tree)
@@ -240,36 +434,52 @@ fn rewrite_method(m: &mut Value, from: &str, to: &str) {
     }
   }
 }
-/// `controller` as a list, whether it was serialised as one string or as an array.
-fn normalise_controller(doc: &mut Value) {
+/// `controller` as a list, whether it was serialised as one string or as an array; sorted if `sort`.
+fn normalise_controller(doc: &mut Value, sort: bool) {
   if let Some(c) = doc.get_mut("controller") {
     if c.is_string() {
       *c = Value::Array(vec![c.clone()]);
     }
+    if sort {
+      if let Some(l) = c.as_array_mut() {
+        l.sort_by_key(|v| v.as_str().unwrap_or("").to_string());
+      }
+    }
   }
 }
-/// The expected result of unpacking `tree` (the library's own JSON of the input document) for `to`.
-fn model_rewrite(tree: &Value, from: &str, to: &str) -> Value {
+fn without_ledger_addresses(tree: &Value) -> Value {
   let mut t = tree.clone();
   if let Some(meta) = t.get_mut("meta").and_then(|m| m.as_object_mut()) {
     meta.remove("governorAddress");
     meta.remove("stateControllerAddress");
   }
+  t
+}
+/// The expected result of unpacking `tree` (the library's own JSON of the input document) for `to`, and whether
+/// the rewrite made two controllers equal (form and order of a merged controller set are not promised).
+fn model_rewrite(tree: &Value, from: &str, to: &str) -> (Value, bool) {
+  let mut t = without_ledger_addresses(tree);
+  let mut merged = false;
   let doc = &mut t["doc"];
-  normalise_controller(doc);
   if let Some(v) = doc.get_mut("id") {
     rewrite_url(v, from, to);
   }
-  if let Some(list) = doc.get_mut("controller").and_then(|c| c.as_array_mut()) {
-    let mut seen = BTreeSet::new();
-    let mut out = Vec::new();
-    for mut c in list.drain(..) {
-      rewrite_url(&mut c, from, to);
-      if seen.insert(c.as_str().unwrap_or("").to_string()) {
-        out.push(c);
+  match doc.get_mut("controller") {
+    Some(Value::Array(list)) => {
+      let mut seen = BTreeSet::new();
+      let mut kept = Vec::new();
+      for mut c in list.drain(..) {
+        rewrite_url(&mut c, from, to);
+        if seen.insert(c.as_str().unwrap_or("").to_string()) {
+          kept.push(c);
+        } else {
+          merged = true;
+        }
       }
+      *list = kept;
     }
-    *list = out;
+    Some(c) => rewrite_url(c, from, to),
+    None => {}
   }
   if let Some(list) = doc.get_mut("verificationMethod").and_then(|c| c.as_array_mut()) {
     for m in list {
@@ -294,11 +504,20 @@ fn model_rewrite(tree: &Value, from: &str, to: &str) -> Value {
       }
     }
   }
-  t
+  (t, merged)
 }
-/// Does the rewritten tree break the identifier rules a DID document must obey (two methods / services with one id,
-/// a relationship reference naming an embedded method, a service id equal to a method id)? Then no valid document can be returned.
-fn id_collision(t: &Value) -> Option<String> {
+
+enum Collision {
+  No,
+  /// `CoreDocument::try_map` documents an error when "the updates cause scoped method references to embedded methods, or
+  /// methods and services with identical identifiers"
+  Must(String),
+  /// neither promised to work nor to fail (two equal references in one relationship, a service id equal to a
+  /// reference that names no method): executed and recorded
+  Open(String),
+}
+/// Does the rewritten tree break the identifier rules a DID document must obey?
+fn id_collision(t: &Value) -> Collision {
   let doc = &t["doc"];
   let ids = |v: Option<&Value>| -> Vec<String> {
     v.and_then(|l| l.as_array()).map(|l| l.iter().filter_map(|m| m.get("id").and_then(|i| i.as_str()).map(String::from)).collect()).unwrap_or_default()
@@ -306,10 +525,17 @@ fn id_collision(t: &Value) -> Option<String> {
   let mut defining: Vec<String> = ids(doc.get("verificationMethod"));
   let mut embedded = BTreeSet::new();
   let mut refs = Vec::new();
+  let mut open = None;
   for rel in RELS {
+    let mut refs_here = BTreeSet::new();
     for e in doc.get(rel).and_then(|l| l.as_array()).cloned().unwrap_or_default() {
       match e.as_str() {
-        Some(r) => refs.push(r.to_string()),
+        Some(r) => {
+          if !refs_here.insert(r.to_string()) {
+            open = Some(format!("{rel} lists the reference {r} twice"));
+          }
+          refs.push(r.to_string())
+        }
         None => {
           let id = e["id"].as_str().unwrap_or("").to_string();
           embedded.insert(id.clone());
@@ -323,14 +549,20 @@ fn id_collision(t: &Value) -> Option<String> {
   let mut seen = BTreeSet::new();
   for id in &defining {
     if !seen.insert(id.clone()) {
-      return Some(format!("two entries with id {id}"));
+      return Collision::Must(format!("two entries with id {id}"));
     }
   }
   if let Some(r) = refs.iter().find(|r| embedded.contains(*r)) {
-    return Some(format!("reference {r} names an embedded method"));
+    return Collision::Must(format!("reference {r} names an embedded method"));
   }
-  // a relationship reference carries a method id as well
-  services.iter().find(|s| refs.contains(s)).map(|s| format!("service id {s} equals a referenced method id"))
+  // a reference that names no method of the document shares its id with a service
+  if let Some(s) = services.iter().find(|s| refs.contains(s)) {
+    open = Some(format!("service id {s} equals a reference that names no method"));
+  }
+  match open {
+    Some(why) => Collision::Open(why),
+    None => Collision::No,
+  }
 }
 
 /// First differing path between two JSON trees.
@@ -380,6 +612,205 @@ fn at<'a>(v: &'a Value, path: &[String]) -> Option<&'a Value> {
   Some(cur)
 }
 
+/// Every encoding variant the library knows (the enum is non-exhaustive: found through its own `TryFrom<u8>`), with the
+/// first byte that names it.
+fn encodings() -> Vec<(u8, StateMetadataEncoding)> {
+  let mut v: Vec<(u8, StateMetadataEncoding)> = Vec::new();
+  for b in 0..=255u8 {
+    if let Ok(Ok(e)) = guard(|| StateMetadataEncoding::try_from(b)) {
+      if !v.iter().any(|(_, x)| *x == e) {
+        v.push((b, e));
+      }
+    }
+  }
+  v
+}
+/// Is `bytes` a frame `DID`, version 1, encoding byte `enc`, little-endian length of the rest?
+fn frame_ok(bytes: &[u8], enc: u8) -> bool {
+  bytes.len() >= 7 && &bytes[0..3] == b"DID" && bytes[3] == 1 && bytes[4] == enc && u16::from_le_bytes([bytes[5], bytes[6]]) as usize == bytes.len() - 7
+}
+fn cleared(doc: &IotaDocument) -> IotaDocument {
+  let mut d = doc.clone();
+  d.metadata.governor_address = None;
+  d.metadata.state_controller_address = None;
+  d
+}
+
+/// `pack_with_encoding` for every variant: framed with the variant's byte, unpacks for `did` to `doc` (ledger addresses
+/// cleared); `pack()` is `pack_with_encoding(default)`. `encs` = `encodings()`.
+fn judge_encodings<C: Serialize>(ctx: &Ctx, case: &C, encs: &[(u8, StateMetadataEncoding)], doc: &IotaDocument, did: &IotaDID, packed_default: &[u8]) {
+  if !encs.iter().any(|(b, e)| *e == StateMetadataEncoding::Json && *b == 0) {
+    ctx.violation("StateMetadataEncoding::try_from|byte-0-is-not-Json", &format!("{encs:?}"), case);
+  }
+  for (byte, enc) in encs {
+    let p = match guard(|| doc.clone().pack_with_encoding(*enc)) {
+      Err(p) => {
+        ctx.violation(&format!("IotaDocument::pack_with_encoding|{}", p.key()), &p.msg, case);
+        continue;
+      }
+      Ok(Err(e)) => {
+        ctx.violation("IotaDocument::pack_with_encoding|small-document-rejected", &format!("{enc:?}: {e}"), case);
+        continue;
+      }
+      Ok(Ok(p)) => p,
+    };
+    if *enc == StateMetadataEncoding::default() {
+      if p != packed_default {
+        ctx.violation("IotaDocument::pack_with_encoding|default-encoding-differs-from-pack", &format!("{enc:?}"), case);
+      }
+      continue; // the caller takes the default packing through the whole oracle
+    }
+    if !frame_ok(&p, *byte) {
+      ctx.violation("IotaDocument::pack_with_encoding|frame-not-DID-1-encoding-len", &format!("{enc:?}: {:02x?}", &p[..p.len().min(7)]), case);
+      continue;
+    }
+    let want = cleared(doc);
+    match guard(|| StateMetadataDocument::unpack(&p).and_then(|s| s.into_iota_document(did))) {
+      Ok(Ok(back)) if back == want => {}
+      other => ctx.violation("pack_with_encoding-unpack|same-did|document-not-equal", &format!("{enc:?}: {:?}", other.map(|r| r.is_ok())), case),
+    }
+  }
+}
+static ENCODINGS: once_cell::sync::Lazy<Vec<(u8, StateMetadataEncoding)>> = once_cell::sync::Lazy::new(encodings);
+
+/// One pack -> unpack -> rebase of `doc` (identifier `from`) onto `to`, judged against the rewrite model.
+/// `stage` prefixes the outcome labels. Returns the rebased document if everything held.
+fn hop(ctx: &Ctx, case: &Case, doc: &IotaDocument, from: &str, to: &str, stage: &str) -> Option<IotaDocument> {
+  let target = IotaDID::parse(to).expect("target DID");
+  let same = to == from;
+  let tclass = if same { "same-did" } else { "other-did" };
+  // baseline = the library's own JSON of the input document
+  let orig = doc.to_json_value().expect("document to JSON");
+  let packed = match guard(|| doc.clone().pack()) {
+    Err(p) => {
+      ctx.violation(&format!("IotaDocument::pack|{}", p.key()), &p.msg, case);
+      return None;
+    }
+    Ok(Err(e)) => {
+      ctx.violation("IotaDocument::pack|small-document-rejected", &format!("{e}"), case);
+      return None;
+    }
+    Ok(Ok(p)) => p,
+  };
+  if !frame_ok(&packed, 0) {
+    ctx.violation("IotaDocument::pack|frame-not-DID-1-0-len", &format!("{:02x?}", &packed[..packed.len().min(7)]), case);
+    return None;
+  }
+  judge_encodings(ctx, case, &ENCODINGS, doc, &IotaDID::parse(from).expect("own DID"), &packed);
+  let smd = match guard(|| StateMetadataDocument::unpack(&packed)) {
+    Err(p) => {
+      ctx.violation(&format!("StateMetadataDocument::unpack|{}", p.key()), &p.msg, case);
+      return None;
+    }
+    Ok(Err(e)) => {
+      ctx.violation("StateMetadataDocument::unpack|own-packing-rejected", &format!("{e}"), case);
+      return None;
+    }
+    Ok(Ok(s)) => s,
+  };
+  let (want, merged) = model_rewrite(&orig, from, to);
+  let collision = id_collision(&want);
+  let res = match guard(|| smd.into_iota_document(&target)) {
+    Err(p) => {
+      ctx.violation(&format!("StateMetadataDocument::into_iota_document|{}", p.key()), &p.msg, case);
+      return None;
+    }
+    Ok(r) => r,
+  };
+  match (res, collision) {
+    (Err(_), Collision::Must(_)) => out(&format!("{stage}:{tclass}:id-collision-after-rebase:rejected")),
+    (Ok(got), Collision::Must(why)) => {
+      ctx.violation(
+        "StateMetadataDocument::into_iota_document|id-collision-after-rebase|not-rejected",
+        &format!("rebasing {from} onto {to}: {why}; Ok was returned with {}", summarise(&got)),
+        case,
+      );
+      out(&format!("{stage}:{tclass}:id-collision-after-rebase:accepted"));
+    }
+    (r, Collision::Open(why)) => {
+      if std::env::var_os("C14_DEBUG").is_some() {
+        eprintln!("open {case:?}: {why}: {}", if r.is_ok() { "accepted" } else { "rejected" });
+      }
+      out(&format!("{stage}:{tclass}:open-identifier-clash:{}", if r.is_ok() { "accepted" } else { "rejected" }))
+    }
+    (Err(e), Collision::No) => {
+      ctx.violation(&format!("StateMetadataDocument::into_iota_document|{tclass}|valid-rebase-rejected"), &format!("{e}"), case);
+      out(&format!("{stage}:{tclass}:rejected"));
+    }
+    (Ok(got), Collision::No) => {
+      let got_raw = got.to_json_value().expect("result to JSON");
+      let (mut orig_n, mut want_n, mut got_n) = (without_ledger_addresses(&orig), want.clone(), got_raw.clone());
+      for t in [&mut orig_n, &mut want_n, &mut got_n] {
+        normalise_controller(&mut t["doc"], merged);
+      }
+      if let Some(path) = first_diff(&want_n, &got_n, &mut Vec::new()) {
+        let o = at(&orig_n, &path);
+        let w = at(&want_n, &path);
+        let g = at(&got_n, &path);
+        let class = if w != o && g == o {
+          "self-reference-not-rewritten"
+        } else if w == o && g != o {
+          "field-outside-the-self-references-changed"
+        } else {
+          "rewritten-to-something-else"
+        };
+        ctx.violation(
+          &format!("StateMetadataDocument::into_iota_document|{tclass}|{class}"),
+          &format!("at /{}: expected {}, got {}", path.join("/"), w.map(|v| v.to_string()).unwrap_or("-".into()), g.map(|v| v.to_string()).unwrap_or("-".into())),
+          case,
+        );
+        out(&format!("{stage}:{tclass}:differs"));
+        return None;
+      }
+      if same {
+        // equality of the real objects, ledger address fields excepted
+        let expect = cleared(doc);
+        if got != expect {
+          // which part is unequal? (the normalised JSON trees agree at this point)
+          let raw_in = expect.to_json_value().expect("document to JSON");
+          match first_diff(&raw_in, &got_raw, &mut Vec::new()) {
+            Some(path) if path == ["doc", "controller"] => ctx.violation(
+              if raw_in["doc"]["controller"].is_string() {
+                "pack-unpack|same-did|single-controller-becomes-a-set"
+              } else {
+                "pack-unpack|same-did|one-element-controller-set-becomes-single-value"
+              },
+              &format!("controller {} comes back as {}; the documents are not equal", raw_in["doc"]["controller"], got_raw["doc"]["controller"]),
+              case,
+            ),
+            other => ctx.violation("pack-unpack|same-did|document-not-equal", &format!("JSON differs at {other:?}; {}", debug_diff(&got, &expect)), case),
+          }
+          out(&format!("{stage}:{tclass}:differs"));
+          return None;
+        }
+      } else {
+        if got.id().as_str() != to {
+          ctx.violation("StateMetadataDocument::into_iota_document|other-did|id()-is-not-the-target", got.id().as_str(), case);
+        }
+        // the real object must be the document the rewritten tree describes (unless two controllers were merged:
+        // whether one remaining controller is a single value or a set of one is then not promised)
+        if !merged {
+          if let Ok(Ok(expect)) = guard(|| IotaDocument::from_json_value(want.clone())) {
+            if got != expect {
+              ctx.violation(
+                "pack-unpack|other-did|document-not-equal-to-the-rewritten-document",
+                &format!("JSON differs at {:?}; {}", first_diff(&want, &got_raw, &mut Vec::new()), debug_diff(&got, &expect)),
+                case,
+              );
+              out(&format!("{stage}:{tclass}:differs"));
+              return None;
+            }
+          }
+        }
+      }
+      let touched = want != without_ledger_addresses(&orig);
+      out(&format!("{stage}:{tclass}:ok:{}{}", if touched { "rewritten" } else { "nothing-to-rewrite" }, if merged { "+controllers-merged" } else { "" }));
+      return Some(got);
+    }
+  }
+  None
+}
+
 fn doc_body(ctx: &Ctx, ch: &mut Chooser) {
   let b = build(ch);
   let case = Case::Doc(ch.seq());
@@ -393,117 +824,32 @@ fn doc_body(ctx: &Ctx, ch: &mut Chooser) {
     } // trivial early reject (id rules are C04's subject)
     Ok(Ok(d)) => d,
   };
-  let target = IotaDID::parse(&b.target).expect("target DID");
-  let same = b.target == b.s;
-  let tclass = if same { "same-did" } else { "other-did" };
-  // baseline = the library's own JSON of the input document
-  let mut orig = doc.to_json_value().expect("document to JSON");
-  normalise_controller(&mut orig["doc"]);
-  let packed = match guard(|| doc.clone().pack()) {
-    Err(p) => return ctx.violation(&format!("IotaDocument::pack|{}", p.key()), &p.msg, &case),
-    Ok(Err(e)) => return ctx.violation("IotaDocument::pack|small-document-rejected", &format!("{e}"), &case),
-    Ok(Ok(p)) => p,
-  };
-  match guard(|| doc.clone().pack_with_encoding(StateMetadataEncoding::Json)) {
-    Ok(Ok(p2)) if p2 == packed => {}
-    _ => ctx.violation("IotaDocument::pack_with_encoding|Json-differs-from-pack", "", &case),
-  }
-  if packed.len() < 7 || &packed[0..3] != b"DID" || packed[3] != 1 || packed[4] != 0 || u16::from_le_bytes([packed[5], packed[6]]) as usize != packed.len() - 7 {
-    return ctx.violation("IotaDocument::pack|frame-not-DID-1-0-len", &format!("{:02x?}", &packed[..packed.len().min(7)]), &case);
-  }
-  let smd = match guard(|| StateMetadataDocument::unpack(&packed)) {
-    Err(p) => return ctx.violation(&format!("StateMetadataDocument::unpack|{}", p.key()), &p.msg, &case),
-    Ok(Err(e)) => return ctx.violation("StateMetadataDocument::unpack|own-packing-rejected", &format!("{e}"), &case),
-    Ok(Ok(s)) => s,
-  };
-  let want = model_rewrite(&orig, &b.s, &b.target);
-  let collision = id_collision(&want);
-  let res = match guard(|| smd.into_iota_document(&target)) {
-    Err(p) => return ctx.violation(&format!("StateMetadataDocument::into_iota_document|{}", p.key()), &p.msg, &case),
-    Ok(r) => r,
-  };
   shard().distinct.push(Ctx::hash_of(&ch.seq()));
-  match (res, collision) {
-    (Err(_), Some(_)) => out(&format!("doc:{tclass}:id-collision-after-rebase:rejected")),
-    (Ok(got), Some(why)) => {
-      ctx.violation(
-        "StateMetadataDocument::into_iota_document|id-collision-after-rebase|not-rejected",
-        &format!("rebasing {} onto {}: {why}; Ok was returned with {}", b.s, b.target, summarise(&got)),
-        &case,
-      );
-      out(&format!("doc:{tclass}:id-collision-after-rebase:accepted"));
+  if b.placeholder {
+    // outside the property: only "does not panic" is judged
+    let target = IotaDID::parse(&b.target).expect("target DID");
+    let r = guard(|| doc.clone().pack().and_then(|p| StateMetadataDocument::unpack(&p)).and_then(|s| s.into_iota_document(&target)));
+    return match r {
+      Err(p) => ctx.violation(&format!("pack-unpack|{}", p.key()), &p.msg, &case),
+      Ok(r) => out(&format!("doc:placeholder-in-identifier-position:{}", if r.is_ok() { "accepted" } else { "rejected" })),
+    };
+  }
+  if let Some(rebased) = hop(ctx, &case, &doc, &b.s, &b.target, "doc") {
+    if b.target != b.s {
+      // second hop: the rebased document is an IOTA document as any other; bring it back
+      hop(ctx, &case, &rebased, &b.target, &b.s, "back");
     }
-    (Err(e), None) => {
-      ctx.violation(&format!("StateMetadataDocument::into_iota_document|{tclass}|valid-rebase-rejected"), &format!("{e}"), &case);
-      out(&format!("doc:{tclass}:rejected"));
-    }
-    (Ok(got), None) => {
-      let mut got_tree = got.to_json_value().expect("result to JSON");
-      normalise_controller(&mut got_tree["doc"]);
-      if let Some(path) = first_diff(&want, &got_tree, &mut Vec::new()) {
-        let o = at(&orig, &path);
-        let w = at(&want, &path);
-        let g = at(&got_tree, &path);
-        let class = if w != o && g == o {
-          "self-reference-not-rewritten"
-        } else if w == o && g != o {
-          "field-outside-the-self-references-changed"
-        } else {
-          "rewritten-to-something-else"
-        };
-        ctx.violation(
-          &format!("StateMetadataDocument::into_iota_document|{tclass}|{class}"),
-          &format!("at /{}: expected {}, got {}", path.join("/"), w.map(|v| v.to_string()).unwrap_or("-".into()), g.map(|v| v.to_string()).unwrap_or("-".into())),
-          &case,
-        );
-        return out(&format!("doc:{tclass}:differs"));
-      }
-      if same {
-        // equality of the real objects, ledger address fields excepted
-        let mut expect = doc.clone();
-        expect.metadata.governor_address = None;
-        expect.metadata.state_controller_address = None;
-        if got != expect {
-          // which part is unequal? (the normalised JSON trees agree at this point)
-          let raw_in = expect.to_json_value().expect("document to JSON");
-          let raw_out = got.to_json_value().expect("result to JSON");
-          match first_diff(&raw_in, &raw_out, &mut Vec::new()) {
-            Some(path) if path == ["doc", "controller"] => ctx.violation(
-              "pack-unpack|same-did|one-element-controller-set-becomes-single-value",
-              &format!("controller {} comes back as {}; the documents are not equal", raw_in["doc"]["controller"], raw_out["doc"]["controller"]),
-              &case,
-            ),
-            other => ctx.violation(
-              "pack-unpack|same-did|document-not-equal",
-              &format!("JSON differs at {other:?}; {}", debug_diff(&got, &expect)),
-              &case,
-            ),
-          }
-        }
-      } else if got.id().as_str() != b.target {
-        ctx.violation("StateMetadataDocument::into_iota_document|other-did|id()-is-not-the-target", got.id().as_str(), &case);
-      }
-      let touched = want != {
-        let mut o = orig.clone();
-        if let Some(m) = o.get_mut("meta").and_then(|m| m.as_object_mut()) {
-          m.remove("governorAddress");
-          m.remove("stateControllerAddress");
-        }
-        o
-      };
-      out(&format!("doc:{tclass}:ok:{}", if touched { "rewritten" } else { "nothing-to-rewrite" }));
-      if ch.deviations() <= 1 {
-        ctx.sample("documents", &case);
-      }
+    if ch.deviations() <= 1 {
+      ctx.sample("documents", &case);
     }
   }
 }
 /// Where two documents whose JSON agrees differ for `PartialEq` (from their `Debug` forms).
 fn debug_diff(a: &IotaDocument, b: &IotaDocument) -> String {
   let (x, y) = (format!("{a:?}"), format!("{b:?}"));
-  let i = x.bytes().zip(y.bytes()).position(|(p, q)| p != q).unwrap_or(x.len().min(y.len()));
-  let from = i.saturating_sub(60);
-  format!("got …{}… expected …{}…", &x[from..(i + 60).min(x.len())], &y[from..(i + 60).min(y.len())])
+  let i = x.chars().zip(y.chars()).position(|(p, q)| p != q).unwrap_or(0);
+  let cut = |s: &str| -> String { s.chars().skip(i.saturating_sub(60)).take(120).collect() };
+  format!("got …{}… expected …{}…", cut(&x), cut(&y))
 }
 fn summarise(d: &IotaDocument) -> String {
   format!(
@@ -515,19 +861,23 @@ fn summarise(d: &IotaDocument) -> String {
 }
 
 // ------------------------------------------------------------------ (b) framing
-fn base_doc() -> (IotaDocument, IotaDID) {
-  let mut ch = Chooser::replay(&[]);
-  let b = build(&mut ch);
-  (IotaDocument::from_json_value(b.tree).expect("base document"), IotaDID::parse(&b.s).unwrap())
+/// base 0: the default document of (a) (payload > 255 bytes); base 1: the smallest document (payload < 256 bytes).
+fn base_doc(base: u8) -> (IotaDocument, IotaDID) {
+  if base == 0 {
+    let mut ch = Chooser::replay(&[]);
+    let b = build(&mut ch);
+    (IotaDocument::from_json_value(b.tree).expect("base document"), IotaDID::parse(&b.s).unwrap())
+  } else {
+    let s = self_did(0);
+    (IotaDocument::from_json_value(json!({"doc": {"id": s}, "meta": {}})).expect("smallest document"), IotaDID::parse(&s).unwrap())
+  }
 }
-fn base_packed() -> Vec<u8> {
-  base_doc().0.pack().expect("pack base document")
+fn base_packed(base: u8) -> Vec<u8> {
+  base_doc(base).0.pack().expect("pack base document")
 }
 
 /// Judge `unpack(bytes)`: `accept` = the statement demands acceptance (and then the result must equal the base).
-fn judge_frame(ctx: &Ctx, case: &Case, bytes: &[u8], accept: Option<bool>, class: &str) {
-  let (doc, did) = base_doc();
-  let reference = StateMetadataDocument::from(doc);
+fn judge_frame(ctx: &Ctx, case: &Case, base: u8, bytes: &[u8], accept: Option<bool>, class: &str) {
   match guard(|| StateMetadataDocument::unpack(bytes)) {
     Err(p) => {
       ctx.violation(&format!("StateMetadataDocument::unpack|{}", p.key()), &p.msg, case);
@@ -537,9 +887,8 @@ fn judge_frame(ctx: &Ctx, case: &Case, bytes: &[u8], accept: Option<bool>, class
       match accept {
         Some(false) => ctx.violation(&format!("StateMetadataDocument::unpack|{class}|accepted"), &format!("header {:02x?}", &bytes[..bytes.len().min(7)]), case),
         Some(true) => {
-          let mut want = reference.clone().into_iota_document(&did).expect("base rebase");
-          want.metadata.governor_address = None;
-          want.metadata.state_controller_address = None;
+          let (doc, did) = base_doc(base);
+          let want = cleared(&doc);
           match guard(|| got.into_iota_document(&did)) {
             Ok(Ok(d)) if d == want => {}
             other => ctx.violation(&format!("StateMetadataDocument::unpack|{class}|decoded-document-differs"), &format!("{:?}", other.map(|r| r.is_ok())), case),
@@ -559,10 +908,10 @@ fn judge_frame(ctx: &Ctx, case: &Case, bytes: &[u8], accept: Option<bool>, class
 }
 
 fn eval_frame(ctx: &Ctx, case: &Case) {
-  let base = base_packed();
-  let n = base.len() - 7;
   match case {
-    Case::Header { pos, val } => {
+    Case::Header { pos, val, base: bs } => {
+      let base = base_packed(*bs);
+      let n = base.len() - 7;
       let mut b = base.clone();
       let unchanged = b[*pos as usize] == *val;
       b[*pos as usize] = *val;
@@ -573,44 +922,49 @@ fn eval_frame(ctx: &Ctx, case: &Case) {
         _ => "length",
       };
       if unchanged {
-        return judge_frame(ctx, case, &b, Some(true), "own-frame");
-      }
-      let class = if *pos >= 5 {
-        let l = u16::from_le_bytes([b[5], b[6]]) as usize;
-        if l > n {
-          "length-exceeds-data"
-        } else {
-          "length-cuts-json-short"
-        }
+        judge_frame(ctx, case, *bs, &b, Some(true), "own-frame");
       } else {
-        class
-      };
-      judge_frame(ctx, case, &b, Some(false), &format!("wrong-{class}"));
+        let class = if *pos >= 5 {
+          let l = u16::from_le_bytes([b[5], b[6]]) as usize;
+          if l > n {
+            "length-exceeds-data"
+          } else {
+            "length-cuts-json-short"
+          }
+        } else {
+          class
+        };
+        judge_frame(ctx, case, *bs, &b, Some(false), &format!("wrong-{class}"));
+      }
     }
-    Case::Header2 { pos, a, b: v } => {
+    Case::Header2 { pos, a, b: v, base: bs } => {
+      let base = base_packed(*bs);
+      let n = base.len() - 7;
       let mut b = base.clone();
       b[*pos as usize] = *a;
       b[*pos as usize + 1] = *v;
       if b == base {
-        return judge_frame(ctx, case, &b, Some(true), "own-frame");
-      }
-      let class = if *pos == 3 {
-        "wrong-version-or-encoding"
-      } else if u16::from_le_bytes([*a, *v]) as usize > n {
-        "wrong-length-exceeds-data"
+        judge_frame(ctx, case, *bs, &b, Some(true), "own-frame");
       } else {
-        "wrong-length-cuts-json-short"
-      };
-      judge_frame(ctx, case, &b, Some(false), class);
+        let class = if *pos == 3 {
+          "wrong-version-or-encoding"
+        } else if u16::from_le_bytes([*a, *v]) as usize > n {
+          "wrong-length-exceeds-data"
+        } else {
+          "wrong-length-cuts-json-short"
+        };
+        judge_frame(ctx, case, *bs, &b, Some(false), class);
+      }
     }
-    Case::Truncate { len } => {
+    Case::Truncate { len, base: bs } => {
+      let base = base_packed(*bs);
       let class = if (*len as usize) < 7 { "truncated-header" } else { "truncated-body" };
-      judge_frame(ctx, case, &base[..*len as usize], Some(false), class);
+      judge_frame(ctx, case, *bs, &base[..*len as usize], Some(false), class);
     }
-    Case::Trailing { k, junk } => {
-      let mut b = base.clone();
+    Case::Trailing { k, junk, base: bs } => {
+      let mut b = base_packed(*bs);
       b.extend(std::iter::repeat(*junk).take(*k as usize));
-      judge_frame(ctx, case, &b, Some(true), "trailing-bytes");
+      judge_frame(ctx, case, *bs, &b, Some(true), "trailing-bytes");
     }
     Case::Body { id } => {
       let body: Vec<u8> = match id {
@@ -627,7 +981,13 @@ fn eval_frame(ctx: &Ctx, case: &Case) {
       let mut b = b"DID\x01\x00".to_vec();
       b.extend((body.len() as u16).to_le_bytes());
       b.extend(body);
-      judge_frame(ctx, case, &b, None, &format!("odd-body-{id}"));
+      judge_frame(ctx, case, 0, &b, None, &format!("odd-body-{id}"));
+    }
+    Case::Encodings { base } => {
+      let (doc, did) = base_doc(*base);
+      let encs = encodings();
+      judge_encodings(ctx, case, &encs, &doc, &did, &base_packed(*base));
+      ctx.outcome(&format!("encodings:{}-variant(s)-packed", encs.len()));
     }
     _ => unreachable!(),
   }
@@ -662,9 +1022,19 @@ fn eval_size(ctx: &Ctx, case: &Case, payload: u32) {
       } else if bytes.len() != payload as usize + 7 {
         ctx.require(false, &format!("size calibration is off: predicted {} got {}", payload + 7, bytes.len()));
       } else {
+        if !frame_ok(&bytes, 0) {
+          ctx.violation("IotaDocument::pack|frame-not-DID-1-0-len", &format!("{:02x?}", &bytes[..7]), case);
+        }
         match guard(|| StateMetadataDocument::unpack(&bytes).and_then(|s| s.into_iota_document(&did))) {
           Ok(Ok(back)) if back == doc => {}
           other => ctx.violation("pack-unpack|near-size-limit|document-not-equal", &format!("{:?}", other.map(|r| r.is_ok())), case),
+        }
+        // bytes beyond the prefixed length are ignored, also when the prefix is (nearly) all ones
+        let mut longer = bytes.clone();
+        longer.extend_from_slice(b"}}  trailing");
+        match guard(|| StateMetadataDocument::unpack(&longer).and_then(|s| s.into_iota_document(&did))) {
+          Ok(Ok(back)) if back == doc => {}
+          other => ctx.violation("StateMetadataDocument::unpack|trailing-bytes|rejected-or-differs-near-size-limit", &format!("{:?}", other.map(|r| r.is_ok())), case),
         }
       }
       ctx.outcome("size:packed");
@@ -691,35 +1061,43 @@ fn eval(ctx: &Ctx, case: &Case) {
 }
 
 fn generate(ctx: &Ctx) {
-  ctx.rule("(a) choice DFS over document shapes x rebase target (deviation-bounded in quick, whole tree in thorough); (b) every value of each header byte, every (version,encoding) pair, every 16-bit length prefix, every truncation, trailing bytes; (c) payload sizes around 65535. distinct_nontrivial = distinct choice sequences whose document the library accepts (the early reject is an input the library refuses to build) + distinct frame/size cases");
+  ctx.rule("(a) choice DFS over document shapes x rebase target: the compact alphabets (first entries of every table) deviation-bounded in quick and as a whole product in thorough, the wide alphabets deviation-bounded in both tiers; every successful rebase is followed by a second hop back; (b) two base frames: every value of each header byte, every (version,encoding) pair, every 16-bit length prefix, every truncation, trailing bytes, every encoding variant; (c) payload sizes around 65535. distinct_nontrivial = distinct choice sequences whose document the library accepts (the early reject is an input the library refuses to build) + distinct frame/size cases");
   ctx.assume("serde_json trees are compared; the baseline of the rewrite model is the library's own JSON of the input document");
-  ctx.assume("documents mentioning the reserved placeholder did:0:0 are excluded (property)");
+  ctx.assume("the property excludes documents that mention the reserved placeholder did:0:0; read as: in an identifier position (id, controller, method id/controller, reference, service id) — those are executed and only judged for panics. The same string inside alsoKnownAs, service endpoints and custom properties is not an identifier and must come back unchanged");
+  ctx.assume("IotaDocument::unpack_from_output / unpack_from_block need the `client` feature (iota-sdk) and are not built; their decoding step StateMetadataDocument::unpack + into_iota_document is what is driven");
   // (a)
-  let bound = ctx.by_tier(Some(4u32), None);
-  choice::explore_into(ctx, "documents x targets", bound, |ch| doc_body(ctx, ch));
+  let compact_bound = ctx.by_tier(Some(5u32), None);
+  let wide_bound = ctx.by_tier(Some(3u32), Some(4u32));
+  COMPACT.store(true, Ordering::SeqCst);
+  choice::explore_into(ctx, "documents x targets (compact alphabets)", compact_bound, |ch| doc_body(ctx, ch));
+  COMPACT.store(false, Ordering::SeqCst);
+  choice::explore_into(ctx, "documents x targets (wide alphabets)", wide_bound, |ch| doc_body(ctx, ch));
   flush_shards(ctx);
   // (b)
   let mut cases = Vec::new();
-  for pos in 0..7u8 {
-    for val in 0..=255u8 {
-      cases.push(Case::Header { pos, val });
-    }
-  }
-  for pos in [3u8, 5] {
-    for a in 0..=255u8 {
-      for b in 0..=255u8 {
-        cases.push(Case::Header2 { pos, a, b });
+  for base in 0..2u8 {
+    for pos in 0..7u8 {
+      for val in 0..=255u8 {
+        cases.push(Case::Header { pos, val, base });
       }
     }
-  }
-  let n = base_packed().len() as u32;
-  for len in 0..n {
-    cases.push(Case::Truncate { len });
-  }
-  for k in [1u32, 2, 7, 100, 70_000] {
-    for junk in [0x00u8, b'}', b'{', b' ', 0xff] {
-      cases.push(Case::Trailing { k, junk });
+    for pos in [3u8, 5] {
+      for a in 0..=255u8 {
+        for b in 0..=255u8 {
+          cases.push(Case::Header2 { pos, a, b, base });
+        }
+      }
     }
+    let n = base_packed(base).len() as u32;
+    for len in 0..n {
+      cases.push(Case::Truncate { len, base });
+    }
+    for k in [1u32, 2, 7, 100, 70_000] {
+      for junk in [0x00u8, b'}', b'{', b' ', 0xff] {
+        cases.push(Case::Trailing { k, junk, base });
+      }
+    }
+    cases.push(Case::Encodings { base });
   }
   for id in 0..9u8 {
     cases.push(Case::Body { id });
@@ -730,7 +1108,7 @@ fn generate(ctx: &Ctx) {
   ctx.add_states(cases.len() as u64);
   ctx.add_transitions(cases.len() as u64);
   ctx.add_traces(cases.len() as u64);
-  ctx.part("framing", json!({"engine": "E1 full product", "cases": cases.len(), "base_frame_bytes": n}));
+  ctx.part("framing", json!({"engine": "E1 full product", "cases": cases.len(), "base_frame_bytes": [base_packed(0).len(), base_packed(1).len()], "encoding_variants": encodings().len()}));
   // (c)
   let sizes: Vec<Case> = (65_530u32..=65_540).chain([65_000, 66_000, 131_071, 131_072 + 100]).map(|payload| Case::Size { payload }).collect();
   ctx.sample("size", &sizes[5]);
@@ -739,8 +1117,26 @@ fn generate(ctx: &Ctx) {
   ctx.add_transitions(sizes.len() as u64);
   ctx.add_traces(sizes.len() as u64);
   ctx.part("size boundary", json!({"cases": sizes.len()}));
-  ctx.bound("document_deviation_bound", bound);
-  ctx.bound("choice_points", ["self-network(3)", "method-1(11)", "method-2(8)", "reference(5)", "service-1(5)", "service-2(5)", "controller(6)", "aka+properties(3)", "metadata(5)", "target(3)"]);
+  ctx.bound("document_deviation_bound_compact", compact_bound);
+  ctx.bound("document_deviation_bound_wide", wide_bound);
+  ctx.bound(
+    "choice_points_wide(compact)",
+    [
+      "self-network(3)".to_string(),
+      format!("method-1({}/{M1_COMPACT})", M1.len()),
+      format!("method-2({}/{M2_COMPACT})", M2.len()),
+      format!("method-3({}/1)", M3.len()),
+      format!("reference({}/{REFS_COMPACT})", REFS.len()),
+      format!("references-2({}/1)", REFS2.len()),
+      format!("service-1({}/{S1_COMPACT})", S1.len()),
+      format!("service-2({}/{S2_COMPACT})", S2.len()),
+      format!("service-3({}/1)", S3.len()),
+      format!("controller({}/{CTRL_COMPACT})", CTRL.len()),
+      format!("aka+properties({EXTRA_N}/{EXTRA_COMPACT})"),
+      format!("metadata({META_N}/{META_COMPACT})"),
+      format!("target({TARGET_N}/{TARGET_COMPACT})"),
+    ],
+  );
 }
 
 fn main() {
